@@ -54,6 +54,8 @@ type c05Thread struct {
 	Dls    []string   `json:"dls"`
 	CDst   string     `json:"cdst"`
 	CSrc   string     `json:"csrc"`
+	// the asynchronous Close(src) never returns (until the driver releases it after the measurements)
+	CSrcBlocks bool `json:"csrc_blocks"`
 }
 type c05Case struct {
 	Mode  string     `json:"mode"`
@@ -91,7 +93,9 @@ type c05Res struct {
 	Up        c05Counts `json:"up"`
 	Down      c05Counts `json:"down"`
 	WgZero    bool      `json:"wgZero"`
-	GLeak     int       `json:"gleak"`
+	GLeak     int       `json:"gleak"`      // goroutines alive beyond the baseline and beyond closers blocked inside Close
+	Blocked   int       `json:"blocked"`    // goroutines alive beyond the baseline once everything has returned
+	GLeakAfter int      `json:"gleakAfter"` // ... and after the blocked Close calls were released
 	Gauge0    int64     `json:"gauge0"`
 	GaugeMid  int64     `json:"gaugeMid"`
 	Gauge1    int64     `json:"gauge1"`
@@ -274,6 +278,8 @@ type c05Core struct {
 }
 
 type c05ThreadState struct {
+	release chan struct{}
+	entered chan struct{} // closed when the blocking Close(src) has marked the connection closing
 	wfail  bool
 	tid    string
 	scr    *c05Thread
@@ -367,6 +373,15 @@ func (v *c05View) Close() error {
 	v.core.mu.Lock()
 	defer v.core.mu.Unlock()
 	v.core.nclose++
+	if v.isSrc && v.th.scr.CSrcBlocks {
+		// the connection is closing from now on, but this Close call does not return
+		v.core.closed = true
+		close(v.th.entered)
+		v.core.mu.Unlock()
+		<-v.th.release
+		v.core.mu.Lock()
+		return nil
+	}
 	if v.core.closed {
 		return c05MkErr("closed", "close")
 	}
@@ -453,11 +468,11 @@ func c05RunScripted(c c05Case) (res c05Res) {
 	}
 	tids := []string{}
 	if runUp {
-		up = &c05ThreadState{tid: "U", scr: c.Up}
+		up = &c05ThreadState{tid: "U", scr: c.Up, release: make(chan struct{}), entered: make(chan struct{})}
 		tids = append(tids, "U")
 	}
 	if runDown {
-		down = &c05ThreadState{tid: "D", scr: c.Down}
+		down = &c05ThreadState{tid: "D", scr: c.Down, release: make(chan struct{}), entered: make(chan struct{})}
 		tids = append(tids, "D")
 	}
 	if runUp {
@@ -476,6 +491,13 @@ func c05RunScripted(c c05Case) (res c05Res) {
 		return s == "pending:close" || s == "finished"
 	}
 	closerGone := map[string]bool{}
+	closerBlocked := 0
+	blocks := func(t string) bool {
+		if t == "Uc" {
+			return up != nil && up.scr.CSrcBlocks
+		}
+		return down != nil && down.scr.CSrcBlocks
+	}
 	// settle waits until the number of live goroutines is what the thread states imply, i.e. every
 	// goroutine that has been let past its last call has really ended (its writes to the shared
 	// statistics are done) before the next call is granted.
@@ -490,7 +512,7 @@ func c05RunScripted(c c05Case) (res c05Res) {
 				exp++
 			}
 		}
-		exp += alive
+		exp += alive + closerBlocked
 		if alive > 0 {
 			exp++ // the WaitGroup waiter
 		}
@@ -539,6 +561,18 @@ func c05RunScripted(c c05Case) (res c05Res) {
 			ctl.grant(t)
 			ctl.finish(t)
 			closerGone[t] = true
+			if blocks(t) {
+				closerBlocked++ // stays inside Close
+				th := up
+				if t == "Dc" {
+					th = down
+				}
+				select {
+				case <-th.entered:
+				case <-time.After(step):
+					return false
+				}
+			}
 			settle()
 			return true
 		}
@@ -600,7 +634,23 @@ func c05RunScripted(c c05Case) (res c05Res) {
 		}
 	}
 	res.Hang = hang
-	res.GLeak = c05WaitGoroutines(base, 2*time.Second)
+	nblk := 0
+	if up != nil && up.scr.CSrcBlocks {
+		nblk++
+	}
+	if down != nil && down.scr.CSrcBlocks {
+		nblk++
+	}
+	// what is left once both directions have returned: exactly the closers inside a blocking Close
+	res.GLeak = c05WaitGoroutines(base+nblk, 2*time.Second)
+	res.Blocked = c05Goroutines() - base
+	if up != nil {
+		close(up.release)
+	}
+	if down != nil {
+		close(down.release)
+	}
+	res.GLeakAfter = c05WaitGoroutines(base, 2*time.Second)
 	A.mu.Lock()
 	B.mu.Lock()
 	res.RecvA = hex.EncodeToString(A.recv)
